@@ -235,16 +235,14 @@ func (c20) Gen(rng *rand.Rand, tier string, idx int) Case {
 		// same expression text over bare columns in both instances, differently typed rows (see below)
 		n := 1 + rng.Intn(3)
 		N := strconv.Itoa(n)
-		qa = []c20Query{
+		skewQs := []c20Query{
 			{sql: "SELECT id, v + w AS s FROM stream", kind: "expr"},
-			{sql: "SELECT *, v / 4 AS r FROM stream", kind: "expr"},
-			{sql: "SELECT id, k, unnest(l) AS e FROM stream", kind: "unnest"},
-			{sql: "SELECT id, changed_cols('c_', true, v, k) FROM stream", kind: "analytic-multi", analytic: []string{"changed_cols('c_', true, v, k)"}, multi: []bool{true}},
-			{sql: "SELECT id, k, changed_cols('c_', true, v) FROM stream", kind: "analytic-multi", analytic: []string{"changed_cols('c_', true, v)"}, multi: []bool{true}},
-			{sql: "SELECT id, CASE WHEN v > 5 THEN 'hi' WHEN w > 5 THEN 'mid' ELSE 'lo' END AS r FROM stream", kind: "expr"},
 			{sql: "SELECT k, sum(v + w) AS s, max(v + w) AS m, count(*) AS c FROM stream GROUP BY k, CountingWindow(" + N + ")", kind: "window", window: n, group: []string{"k"}},
 			{sql: "SELECT count(*) AS c, sum(v + w) AS s FROM stream GROUP BY CountingWindow(" + N + ")", kind: "window", window: n},
-		}[rng.Intn(3)]
+			{sql: "SELECT k, sum(v + w) AS s, max(v + w) AS m, count(*) AS c FROM stream GROUP BY k, CountingWindow(" + N + ")", kind: "window", window: n, group: []string{"k"}},
+			{sql: "SELECT *, v / 4 AS r FROM stream", kind: "expr"},
+		}
+		qa = skewQs[rng.Intn(len(skewQs))]
 		qb = qa
 		c.Stat = append(c.Stat, "pair-same-sql")
 	} else if rng.Intn(10) == 0 {
